@@ -146,6 +146,46 @@ func checkTtyCallbackLocked(c *Ctx, p *Prog, tname, rule string) {
 		ref, _, ok := fieldAddrRef(cc.Args[0])
 		return ok && ref.Owner == owner
 	}
+	// the callback, and every field the signal goroutine (a function literal started by `go` in a method
+	// of the type) stores: that goroutine runs beside every method
+	guarded := []string{"cb"}
+	for _, fn := range p.modFns {
+		if fn.Pkg != p.Tcell || fn.Parent() == nil || recvTypeName(topFunc(fn)) != owner {
+			continue
+		}
+		isGo := false
+		for _, r := range referrers(fn) {
+			_ = r
+		}
+		eachInstr(fn.Parent(), func(in ssa.Instruction) {
+			if g, ok := in.(*ssa.Go); ok {
+				if mc, isMC := g.Call.Value.(*ssa.MakeClosure); isMC && mc.Fn == ssa.Value(fn) {
+					isGo = true
+				}
+				if g.Call.Value == ssa.Value(fn) {
+					isGo = true
+				}
+			}
+		})
+		if !isGo {
+			continue
+		}
+		eachInstr(fn, func(in ssa.Instruction) {
+			if st, ok := in.(*ssa.Store); ok {
+				if ref, _, ok := fieldAddrRef(st.Addr); ok && ref.Owner == owner {
+					seen := false
+					for _, g := range guarded {
+						if g == ref.Name {
+							seen = true
+						}
+					}
+					if !seen {
+						guarded = append(guarded, ref.Name)
+					}
+				}
+			}
+		})
+	}
 	n := 0
 	for _, fn := range p.modFns {
 		if fn.Pkg != p.Tcell {
@@ -155,40 +195,42 @@ func checkTtyCallbackLocked(c *Ctx, p *Prog, tname, rule string) {
 		if recvTypeName(top) != owner {
 			continue
 		}
-		var accs []ssa.Instruction
-		for _, st := range storesTo(fn, owner, "cb") {
-			accs = append(accs, st)
-		}
-		for _, ld := range loadsOf(fn, owner, "cb") {
-			accs = append(accs, ld)
-		}
-		for i, a := range accs {
-			n++
-			locked := false
-			eachInstr(fn, func(in ssa.Instruction) {
-				if !isMu(in, "Lock") || !instrDominates(in, a) {
-					return
-				}
-				// no Unlock between the Lock and the access
-				stop := map[ssa.Instruction]bool{}
-				eachInstr(fn, func(in2 ssa.Instruction) {
-					if isMu(in2, "Unlock") {
-						if _, isDefer := in2.(*ssa.Defer); !isDefer {
-							stop[in2] = true
+		for _, field := range guarded {
+			var accs []ssa.Instruction
+			for _, st := range storesTo(fn, owner, field) {
+				accs = append(accs, st)
+			}
+			for _, ld := range loadsOf(fn, owner, field) {
+				accs = append(accs, ld)
+			}
+			for i, a := range accs {
+				n++
+				locked := false
+				eachInstr(fn, func(in ssa.Instruction) {
+					if !isMu(in, "Lock") || !instrDominates(in, a) {
+						return
+					}
+					// no Unlock between the Lock and the access
+					stop := map[ssa.Instruction]bool{}
+					eachInstr(fn, func(in2 ssa.Instruction) {
+						if isMu(in2, "Unlock") {
+							if _, isDefer := in2.(*ssa.Defer); !isDefer {
+								stop[in2] = true
+							}
+						}
+					})
+					between := false
+					for u := range stop {
+						if reachableAfter(in, u) && reachesWithout(u, a, func(x ssa.Instruction) bool { return isMu(x, "Lock") }) {
+							between = true
 						}
 					}
-				})
-				between := false
-				for u := range stop {
-					if reachableAfter(in, u) && reachesWithout(u, a, func(x ssa.Instruction) bool { return isMu(x, "Lock") }) {
-						between = true
+					if !between {
+						locked = true
 					}
-				}
-				if !between {
-					locked = true
-				}
-			})
-			c.Check(locked, rule, fmt.Sprintf("%s.%s:cb-access#%d", tname, fn.Name(), i+1), p.pos(a.Pos()), "the callback field is accessed with the Tty's mutex held")
+				})
+				c.Check(locked, rule, fmt.Sprintf("%s.%s:%s-access#%d", tname, fn.Name(), field, i+1), p.pos(a.Pos()), "the field (the callback, or one the signal goroutine writes) is accessed with the Tty's mutex held")
+			}
 		}
 	}
 	if n == 0 {
